@@ -216,6 +216,9 @@ func denotes(exp, got any, o *ojg.Options, path string) (bool, string) {
 			return false, fmt.Sprintf("%s: wrote string %q, text has %#v", path, te, got)
 		}
 	case []any:
+		if te == nil && got == nil {
+			break // a nil list may be written as null (oj.Marshal does, as encoding/json does) or as []
+		}
 		g, ok := got.([]any)
 		if !ok || len(g) != len(te) {
 			return false, fmt.Sprintf("%s: wrote array of %d, text has %T of %d", path, len(te), got, len(g))
@@ -226,6 +229,9 @@ func denotes(exp, got any, o *ojg.Options, path string) (bool, string) {
 			}
 		}
 	case map[string]any:
+		if te == nil && got == nil {
+			break // (a nil map likewise)
+		}
 		g, ok := got.(map[string]any)
 		if !ok {
 			return false, fmt.Sprintf("%s: wrote object, text has %T", path, got)
